@@ -1,6 +1,7 @@
 package thriftproto
 
 import (
+	"errors"
 	"context"
 	"sync"
 
@@ -207,6 +208,26 @@ type BaseTTransport struct {
 }
 
 var _ thrift.TTransport = new(BaseTTransport)
+
+// headerTransportBuffer is the size of the buffered reader thrift's header transport puts in
+// front of this transport: that much may be pulled from the connection beyond the current frame.
+const headerTransportBuffer = 4096
+
+var errExceedReadLimit = errors.New("size of thrift frame exceeds the read limit")
+
+// Read reads from the connection, refusing to pull more for one message than the read limit
+// allows (the read counter is zeroed at the start of every Unpack). The thrift library itself
+// would buffer any announced frame up to its own 16MB maximum.
+func (b *BaseTTransport) Read(p []byte) (int, error) {
+	allowed := int64(erpc.GetReadLimit()) + headerTransportBuffer - int64(b.Readed())
+	if allowed <= 0 {
+		return 0, errExceedReadLimit
+	}
+	if int64(len(p)) > allowed {
+		p = p[:allowed]
+	}
+	return b.ReadWriteCounter.Read(p)
+}
 
 // Open opens the transport for communication.
 func (*BaseTTransport) Open() error {
